@@ -285,6 +285,15 @@ func (ck *Checker) collect() {
 			ck.addObls(x, obls)
 		}
 	}
+	// disciplines decided by the effect analysis
+	if ck.only == "" || ck.only == "discipline" {
+		reg := NewRegistry()
+		for _, o := range ck.disciplineObligations() {
+			if hasProp(o.Props, ck.prop) {
+				ck.jobs = append(ck.jobs, job{o, reg})
+			}
+		}
+	}
 	// lemmas
 	for _, ln := range ck.C.LemmaOrder {
 		lm := ck.C.Lemmas[ln]
